@@ -51,6 +51,26 @@ def run(ctx, canary=False):
         recs = [[0, 0, 0]] * 150 + [[1, 1, 1]] * 120 + [[rng.randrange(2), rng.randrange(3), rng.randrange(2)] for _ in range(30)]
         scs.append({"mech": name, "params": p, "attrs": ["a", "b", "c"], "sizes": [2, 3, 2], "records": recs, "seed": rng.randrange(10 ** 6),
                     "grow": ([0, 1, 1], 1500), "forced_neighbours": [("add(0, 1, 1)", recs + [[0, 1, 1]]), ("remove#0", recs[1:])], "only_forced_nb": True})
+    # weighted records (Dataset(df, domain, weights)): a neighbour drops one whole record, among them the heaviest one
+    for name in ("MST", "AIM", "MWEM", "AdaGrid"):
+        p = {"epsilon": 3.0, "delta": 1e-6}
+        if name == "AIM":
+            p["rounds"] = 3
+        if name == "MWEM":
+            p.update(noise="gaussian", bounded=False, rounds=2, alpha=0.9)
+        if name == "AdaGrid":
+            p.update(targets=[], split_strategy=None, threshold=5.0)
+        recs = [[rng.randrange(2), rng.randrange(3), rng.randrange(2), w_] for w_ in (1.0, 3.0, 0.5, 2.0, 1.5, 1.0)]
+        forced = [("remove#%d (weight %s)" % (i, recs[i][-1]), recs[:i] + recs[i + 1:]) for i in (1, 2, 0)]
+        scs.append({"mech": name, "params": p, "attrs": ["a", "b", "c"], "sizes": [2, 3, 2], "records": recs, "seed": rng.randrange(10 ** 6),
+                    "forced_neighbours": forced, "only_forced": True, "weighted": True})
+    # AIM with declared structural zeros; the neighbours put records into a declared-impossible cell
+    for _ in range(2):
+        p = {"epsilon": 3.0, "delta": 1e-6, "rounds": 4, "structural_zeros": {"a,b": [[0, 2], [1, 0]]}}
+        recs = [[0, 0, rng.randrange(2)], [0, 1, rng.randrange(2)], [1, 1, 0], [1, 2, 1], [1, 1, 1], [0, 0, 1]]
+        scs.append({"mech": "AIM", "params": p, "attrs": ["a", "b", "c"], "sizes": [2, 3, 2], "records": recs, "seed": rng.randrange(10 ** 6),
+                    "forced_neighbours": [("add(0, 2, 1)", recs + [[0, 2, 1]]), ("add(1, 0, 0)", recs + [[1, 0, 0]]), ("remove#0", recs[1:])],
+                    "only_forced_nb": True, "grow": ([0, 2, 1], 40)})
     # wide tables (11 binary attributes: 55 candidate pairs), where implementations are tempted to prune candidates
     wide = [chr(ord("a") + i) for i in range(11)]
     for name in ("AdaGrid", "MST"):
